@@ -56,6 +56,34 @@ def rename_map(text, rnd, keywords, special):
     return mapping
 
 
+DIRECTED = [
+    # macros in conditional expressions / guards
+    ("\n#ifndef @\n# define @ 3\n#endif\n#if @ > 2 && VERBOSE\n\nint\tg_a;\n\n#endif\n", "ENABLED", "DEFINED", "a.c"),
+    ("\n#if @ > 0\n\nint\tg_a;\n\n#endif\n", "ENABLED", "DEFINED", "a.c"),
+    ("\n#if !@ && LEVEL\n\nint\tg_a;\n\n#endif\n", "ENABLE", "DEFINE", "a.c"),
+    ("\n#ifdef @\n\nint\tg_a;\n\n#endif\n", "ENABLE", "ENDIFS", "a.c"),
+    ("\n# define @ 1\n\nint\tg_a = @;\n", "LIMITS", "DEFINE", "a.c"),
+    ("\n# define @ 1\n\nint\tg_a = @;\n", "AB", "IF", "a.c"),
+    # globals (environ is the one name the tool exempts)
+    ("\nchar\t**@;\n", "tab", "env", "a.c"),
+    ("\nchar\t**@;\n", "abcdefgh", "environs", "a.c"),
+    ("\nchar\t**g_@;\n", "abcdefg", "environ", "a.c"),
+    ("\nextern char\t**@;\n", "abcdefgh", "environx", "a.c"),
+    # functions / parameters / locals
+    ("\nint\t@(void)\n{\n\treturn (0);\n}\n", "ft_abcd", "ft_main", "a.c"),
+    ("\nint\t@(void)\n{\n\treturn (0);\n}\n", "xmain", "mainx", "a.c"),
+    ("\nint\tft_fa(int @)\n{\n\treturn (@ + 1);\n}\n", "abcdefg", "defined", "a.c"),
+    ("\nint\tft_fa(void)\n{\n\tint\t@;\n\n\t@ = 0;\n\treturn (@);\n}\n", "abcde_t", "size__t", "a.c"),
+    ("\nint\tft_fa(int *p, int @)\n{\n\treturn ((@)*p);\n}\n", "row_n", "row_t", "a.c"),
+    ("\nint\tft_fa(int *p, int @)\n{\n\treturn ((@)&p[0] != 0);\n}\n", "t_abc", "t_int", "a.c"),
+    # user types
+    ("\ntypedef struct s_@\n{\n\tint\tx;\n}\tt_@;\n", "abc", "int", "a.h"),
+    ("\ntypedef struct s_@\n{\n\tint\tx;\n}\tt_@;\n", "abcdef", "struct", "a.h"),
+    ("\nenum e_@\n{\n\tA_@\n};\n", "abcd", "enum", "a.h"),
+    ("\nint\tft_fa(void)\n{\n\tint\t@;\n\n\t@ = 1;\n\treturn (@);\n}\n", "xattribute__", "__attributex", "a.c"),
+]
+
+
 def apply_map(text, mapping):
     def sub_code(seg):
         return IDENT.sub(lambda m: mapping.get(m.group(0), m.group(0)), seg)
@@ -137,12 +165,24 @@ def run(tier, seed, replay):
         pairs.append((name, text, t2, mp))
         tasks.append({"op": "pipeline", "text": text, "name": name})
         tasks.append({"op": "pipeline", "text": t2, "name": name})
+    # directed pairs: an identifier of every position class against a same-length, same-class name
+    # that resembles a specially treated one (case variant, sub-string, super-string) without being it
+    for k, (tpl, ref, alt, fname) in enumerate(DIRECTED):
+        if len(ref) != len(alt):
+            continue
+        a = P.header(fname) + tpl.replace("@", ref)
+        b = P.header(fname) + tpl.replace("@", alt)
+        pairs.append((fname, a, b, {ref: alt}))
+        tasks.append({"op": "pipeline", "text": a, "name": fname})
+        tasks.append({"op": "pipeline", "text": b, "name": fname})
     res = native_batch(tasks)
     fails = []
     for k, (name, a, b, mp) in enumerate(pairs):
         ka, kb = diag_key(res[2 * k]), diag_key(res[2 * k + 1])
-        if ka != kb and ka[0] != "no-verdict" and kb[0] != "no-verdict":
-            diff = sorted(set(ka) ^ set(kb))[:4]
+        nva, nvb = bool(ka) and ka[0] == "no-verdict", bool(kb) and kb[0] == "no-verdict"
+        # a fatal error on one side only is a change of the diagnostics too
+        if ka != kb and not (nva and nvb):
+            diff = sorted(set(ka) ^ set(kb), key=str)[:4]
             fails.append(((name, a, b), f"{name}: diagnostics change under a consistent renaming "
                                         f"({len(mp)} identifiers): {diff}"))
     chk.add_bounded("Lexer + Registry.run (whole pipeline), two runs",
